@@ -1469,6 +1469,37 @@ fn gen_client(repo: &Path, g: &mut Gen) -> R<()> {
     let covers = send_inside && !lock_outside;
     if !send_inside && !rt[..at].contains(". send (") { return shape(rq_rel, "request(): no `.send(…)` before or inside the timeout"); }
     let _ = writeln!(s, "/-- {rq_rel}: does the per-request timeout also bound handing the request to the transport (`send(frame)`)? -/\ndef requestTimeoutCoversSend : Bool := {covers}");
+    // what a call awaits OUTSIDE that future (where nothing bounds the wait): in `request()` only its own `queue_request()`, in
+    // `queue_request()` only the pending map's lock (held for one insert). Anything else - a semaphore, the reply channel, a
+    // transport operation - is a wait the caller's timeout does not cover.
+    let outside_ok = {
+        // awaited expressions of a block, not descending into the arguments of a `timeout(…)` call
+        struct V { outside: Vec<String> }
+        impl<'ast> syn::visit::Visit<'ast> for V {
+            fn visit_expr_await(&mut self, a: &'ast syn::ExprAwait) {
+                let b = &a.base;
+                let bt = quote::quote!(#b).to_string();
+                if bt.starts_with("tokio :: time :: timeout (") || bt.starts_with("timeout (") || bt.starts_with("time :: timeout (") { return; }
+                self.outside.push(bt);
+                syn::visit::visit_expr_await(self, a);
+            }
+            fn visit_expr_call(&mut self, c: &'ast syn::ExprCall) {
+                let f = &c.func;
+                if quote::quote!(#f).to_string().ends_with("timeout") { return; }
+                syn::visit::visit_expr_call(self, c);
+            }
+        }
+        let mut v = V { outside: vec![] };
+        syn::visit::Visit::visit_block(&mut v, req);
+        let in_request_ok = v.outside.iter().all(|x| x == "self . queue_request ()");
+        let qr = method_body(&rq, "queue_request", 0).ok_or_else(|| Shape(format!("{rq_rel}: fn queue_request not found")))?;
+        let mut w = V { outside: vec![] };
+        syn::visit::Visit::visit_block(&mut w, qr);
+        let in_queue_ok = w.outside.iter().all(|x| x == "self . pending_requests . lock ()");
+        in_request_ok && in_queue_ok
+    };
+    let reply_inside = bounded.contains("rx . await") || bounded.contains("rx.await");
+    let _ = writeln!(s, "/-- {rq_rel}: outside the future bounded by the request timeout a call awaits nothing but the pending map's lock (for one insert), and the wait for the reply is inside it -/\ndef requestWaitsAreTimed : Bool := {}", outside_ok && reply_inside);
     // the request id counter shared by a requestor and its clones: how many bits before it wraps
     let id_rel = "protocol/src/request_id.rs";
     let id = Src::load(repo, id_rel)?;
